@@ -24,7 +24,7 @@ FORMAT_TWIN = True          # ambient monitor: every System matrix is also reque
 META = {
     "level_text": "Exploration: post-conditions on the real System.assemble(): the returned initial accelerations and forces are substituted into the equations of motion, the acceleration-level constraints and the Signorini/Coulomb conditions recomputed from the real System methods; deliberately inconsistent initial states must be rejected. Held on the systems generated.",
     "level_note": "tolerances tied to SolverOptions.fixed_point_atol for contact systems; isotropic friction for direction tests.",
-    "technique": "runtime post-condition monitors on System.assemble with residual recomputation",
+    "technique": "runtime post-condition monitors on System.assemble with residual recomputation + ambient format-twin monitor (every System matrix also requested as coo/csr/csc/array)",
 }
 CASE_TIMEOUT = 180
 KINDS = ["rev", "rev", "chain", "contact", "contact", "multi", "contact", "reject:velocity", "reject:penetration", "reject:approach"]
